@@ -144,6 +144,26 @@ fn reached_variants(ctx: &StateCtx, acc: &mut Acc) {
     }
 }
 
+/// provenance of the table entries that were obtained by playing a move (successor key -> "fen moves m")
+static REACHED: std::sync::Mutex<Vec<([u8; 34], String)>> = std::sync::Mutex::new(Vec::new());
+
+fn hash_by_route(route: &str) -> Result<Option<u64>, String> {
+    // route is either a FEN (4 fields) or "<fen4> moves <m>"
+    match route.split_once(" moves ") {
+        None => hash_of_fen(&format!("{} 0 1", route)),
+        Some((fen, m)) => {
+            let pos = parse_fen_strict(&format!("{} 0 1", fen))?.pos.normalised();
+            let mut g = load(&pos)?;
+            let Some(em) = find_move(&mut g, m) else { return Ok(None) };
+            guarded(|| {
+                g.push(em);
+                g.hash()
+            })
+            .map(Some)
+        }
+    }
+}
+
 pub fn run(tier: &str, seed: i64) -> Outcome {
     let off = seed.unsigned_abs();
     let spaces = core_spaces(tier, seed, false);
@@ -159,6 +179,33 @@ pub fn run(tier: &str, seed: i64) -> Outcome {
         let h = g.hash();
         acc.pairs.push((h, ctx.pos.key()));
         acc.evaluations += 1;
+        // the hashes CARRIED through the moves with board surgery of their own (castling, en passant, promotion) enter
+        // the same table under the successor's key: a make/unmake pair that is wrong but symmetric collides with the
+        // text-loaded twin of the position it pretends to have reached
+        let specials: Vec<Mv> = ctx.pos.legal().into_iter().filter(|m| matches!(m.kind, MvKind::CastleShort | MvKind::CastleLong | MvKind::EnPassant | MvKind::Promotion)).collect();
+        if !specials.is_empty() {
+            let mut g2 = g.clone();
+            for m in specials {
+                let t = m.uci();
+                let Some(em) = find_move(&mut g2, &t) else { continue };
+                if let Ok(hh) = guarded(|| {
+                    g2.push(em);
+                    let x = g2.hash();
+                    g2.pop(em);
+                    x
+                }) {
+                    let k = ctx.pos.apply(&m).normalised().key();
+                    acc.pairs.push((hh, k));
+                    acc.transitions += 1;
+                    acc.count("hashes carried through castling / en passant / promotion entered into the table");
+                    if let Ok(mut r) = REACHED.lock() {
+                        if r.len() < 4_000_000 {
+                            r.push((k, format!("{} moves {}", ctx.pos.fen4(false), t)));
+                        }
+                    }
+                }
+            }
+        }
         // fixed-stride choice of base states for the single-feature variants
         let take = if ctx.space.starts_with("U3") {
             ctx.index % u3_stride == off % u3_stride
@@ -193,7 +240,15 @@ pub fn run(tier: &str, seed: i64) -> Outcome {
             collisions += 1;
             let a = key_to_text(&w[0].1);
             let b = key_to_text(&w[1].1);
-            acc.violation(format!("collision|{}|{}", a, b), format!("two distinct positions share the hash {:X}: {} and {}", w[0].0, a, b), json::obj(vec![("kind", json::s("c05-collision")), ("a", json::s(a.clone())), ("b", json::s(b.clone()))]));
+            // how each side of the pair got its hash: loaded from text, or carried through a move
+            let route = |k: &[u8; 34], text: &str| -> String {
+                if hash_by_route(text).ok().flatten() == Some(w[0].0) {
+                    return text.to_string();
+                }
+                REACHED.lock().ok().and_then(|r| r.iter().find(|(kk, route)| kk == k && hash_by_route(route).ok().flatten() == Some(w[0].0)).map(|x| x.1.clone())).unwrap_or_else(|| text.to_string())
+            };
+            let (ra, rb) = (route(&w[0].1, &a), route(&w[1].1, &b));
+            acc.violation(format!("collision|{}|{}", a, b), format!("two distinct positions share the hash {:X}: {} [reached as: {}] and {} [reached as: {}]", w[0].0, a, ra, b, rb), json::obj(vec![("kind", json::s("c05-collision")), ("a", json::s(ra)), ("b", json::s(rb)), ("a_position", json::s(a.clone())), ("b_position", json::s(b.clone()))]));
         }
     }
     acc.add("entries in the global hash -> position table", n_pairs as u64);
@@ -269,8 +324,9 @@ pub fn replay(j: &J) -> Result<Acc, String> {
         Some("c05-collision") => {
             let a = j.get("a").and_then(|x| x.as_str()).ok_or("a")?;
             let b = j.get("b").and_then(|x| x.as_str()).ok_or("b")?;
-            let (ha, hb) = (hash_of_fen(&format!("{} 0 1", a))?, hash_of_fen(&format!("{} 0 1", b))?);
-            if ha.is_some() && ha == hb {
+            let (ha, hb) = (hash_by_route(a)?, hash_by_route(b)?);
+            let same_position = j.get("a_position").and_then(|x| x.as_str()).is_some() && j.get("a_position").and_then(|x| x.as_str()) == j.get("b_position").and_then(|x| x.as_str());
+            if ha.is_some() && ha == hb && !same_position {
                 acc.violation("collision", format!("{} and {} share hash {:X}", a, b, ha.unwrap()), j.clone());
             }
         }
